@@ -12,7 +12,9 @@ pub mod props_policy;
 pub mod props_ra;
 pub mod rfc4861;
 pub mod props_crash;
+pub mod props_dnsconc;
 pub mod props_dnsfunc;
+pub mod props_dnsroute;
 pub mod props_dnswire;
 pub mod rfc1035;
 pub mod wire_dns;
@@ -95,6 +97,23 @@ pub fn run_check(id: &str, tier: Tier) -> i32 {
                 ctx.set_inconclusive("C03 is decided on the wire only and the wire rig is unavailable");
             } else {
                 props_dnswire::run_c03(&ctx);
+            }
+        }
+        "C07" => {
+            ctx.rule("concurrent: (1) every listener family (127.0.0.1, 0.0.0.0, ::1, ::) x UDP to several local destination addresses / TCP in one write / TCP with the length prefix split over segments; (2) enumerated drop patterns over the upstream transmissions (quick: all with <= 2 losses + all lost; thorough: all 32), run concurrently; (3) generated sets of up to 48 (thorough 256) queries in flight on a fresh server each, per-question upstream script: delay 0..1500 ms (arbitrary reordering), 0..2 duplicates, wrong id first (forces the TCP retry), TC (forces TCP), losses; oracle: exactly one response per query within the server's own back-off bound (late duplicates collected for 1.5 s), carrying its own question and own answer, SERVFAIL iff the upstream never answered, <= 5 transmissions, response source == query destination, complete TCP frames, no task panic; non-trivial = a query whose upstream exchange was disturbed or whose TCP request came in several segments");
+            ctx.assume("tokio's task interleaving inside the server is exercised by real concurrency and repetition, not enumerated");
+            if !wire_ok {
+                ctx.set_inconclusive("C07 is decided on the wire only and the wire rig is unavailable");
+            } else {
+                props_dnsconc::run_c07(&ctx);
+            }
+        }
+        "C15" => {
+            ctx.rule("routes: generated route tables (1..6 routes, 0..4 suffixes each over a 7-label alphabet so nesting and siblings are common, \"\" default, forward / forge-nxdomain; one scripted upstream per forward route; suffixes optionally written in upper case) x 4..30 names (suffix + 0..3 extra labels, random letter case, near misses at label boundaries, reversed labels, the root, unrelated names, RD on/off); each table is run as generated and with routes and suffixes permuted; oracle: reference longest-suffix model (whole labels, ASCII case-insensitive): forge => NXDOMAIN and no upstream asked, forward+RD => own answer from exactly that route's upstream, forward without RD => REFUSED and nobody asked, no route => SERVFAIL; outcomes equal under permutation; non-trivial = a name matching suffixes of >= 2 routes, or differing in case from the configured suffix");
+            if !wire_ok {
+                ctx.set_inconclusive("C15 is decided on the wire only and the wire rig is unavailable");
+            } else {
+                props_dnsroute::run_c15(&ctx);
             }
         }
         "C04" => {
@@ -183,6 +202,8 @@ pub fn run_replay(path: &str) -> i32 {
                 eprintln!("wire rig unavailable: {}", e);
             }
             props_dnswire::replay(id, sub, case)
+                .or_else(|| props_dnsroute::replay(id, sub, case))
+                .or_else(|| props_dnsconc::replay(id, sub, case))
         }
     };
     match res {
